@@ -37,6 +37,7 @@ import (
 type c14pcfg struct {
 	workers string // "1" | "2+dedicated"
 	budget  int
+	ctor    string // constructor failure case ("" = Close exploration)
 }
 
 func c14pConfigs(tier string) []vmc.Cfg {
@@ -46,7 +47,10 @@ func c14pConfigs(tier string) []vmc.Cfg {
 	}
 	var out []vmc.Cfg
 	for _, wk := range []string{"1", "2+dedicated"} {
-		out = append(out, vmc.Cfg{Name: fmt.Sprintf("provider-close/workers-%s/preemptions<=%d", wk, b), Budget: b, Data: c14pcfg{wk, b}})
+		out = append(out, vmc.Cfg{Name: fmt.Sprintf("provider-close/workers-%s/preemptions<=%d", wk, b), Budget: b, Data: c14pcfg{workers: wk, budget: b}})
+	}
+	for _, f := range []string{"online-interval-0", "online-interval-0+own-keystore", "negative-offline-delay", "no-router", "no-sender", "dedicated>max", "nil-keystore-option"} {
+		out = append(out, vmc.Cfg{Name: "provider-ctor/" + f, Data: c14pcfg{ctor: f}})
 	}
 	return out
 }
@@ -104,6 +108,10 @@ func c14pRun(x *vmc.X, cfg vmc.Cfg) {
 	c := cfg.Data.(c14pcfg)
 	vrand.Hook = vrand.Seeded(1) // the keys of the prefix-length measurement: the same in every execution and replay
 	defer func() { vrand.Hook = nil }()
+	if c.ctor != "" {
+		c14pCtor(x, c)
+		return
+	}
 	self := kid.Peer("0110", 9)
 	s := vmc.NewSched(x)
 	s.Filter = func(string) bool { return false } // set-up runs through
@@ -286,4 +294,70 @@ func c14pRun(x *vmc.X, cfg vmc.Cfg) {
 	}
 	x.Eval(len(parkedAtClose) > 0)
 	x.Outcome("parked-at-close=%d", len(parkedAtClose))
+}
+
+// c14pCtor: provider.New fails at a chosen point; nothing it started (internal keystore worker,
+// connectivity checker, provider loops) may be left running.
+func c14pCtor(x *vmc.X, c c14pcfg) {
+	self := kid.Peer("0110", 9)
+	s := vmc.NewSched(x)
+	s.Filter = func(string) bool { return false }
+	defer s.Finish()
+	e := &c14penv{s: s, swarm: []peer.ID{kid.Peer("000", 9), kid.Peer("100", 9)}}
+	opts := []Option{WithPeerID(self), WithSelfAddrs(func() []ma.Multiaddr { return nil }), WithDatastore(jds.New())}
+	if c.ctor != "no-router" {
+		opts = append(opts, WithRouter(e))
+	}
+	if c.ctor != "no-sender" {
+		opts = append(opts, WithMessageSender(e))
+	}
+	var own keystore.Keystore
+	switch c.ctor {
+	case "online-interval-0":
+		opts = append(opts, WithConnectivityCheckOnlineInterval(0))
+	case "online-interval-0+own-keystore":
+		ks, err := keystore.NewKeystore(jds.New())
+		if err != nil {
+			x.Failf("C14/setup", "%v", err)
+			return
+		}
+		own = ks
+		opts = append(opts, WithKeystore(ks), WithConnectivityCheckOnlineInterval(0))
+	case "negative-offline-delay":
+		opts = append(opts, WithOfflineDelay(-time.Second))
+	case "dedicated>max":
+		opts = append(opts, WithMaxWorkers(1), WithDedicatedBurstWorkers(1), WithDedicatedPeriodicWorkers(1))
+	case "nil-keystore-option":
+		opts = append(opts, WithKeystore(nil))
+	}
+	prov, err := New(opts...)
+	synctest.Wait()
+	if err == nil {
+		x.Failf("C14/provider/ctor-no-error", "New succeeded although %s was injected", c.ctor)
+		prov.Close()
+		if own != nil {
+			own.Close()
+		}
+		return
+	}
+	if prov != nil {
+		x.Failf("C14/provider/ctor-handle-with-error", "New returned a provider together with the error %v", err)
+	}
+	time.Sleep(time.Minute)
+	synctest.Wait()
+	var left []string
+	for _, g := range c14pLeaks() {
+		if own != nil && strings.Contains(g, "keystore") {
+			continue // the caller's keystore stays the caller's
+		}
+		left = append(left, g)
+	}
+	if len(left) > 0 {
+		x.Failf("C14/provider/ctor-leak/"+c.ctor, "New failed (%v) and left %d goroutine(s) running: %v", err, len(left), left)
+	}
+	if own != nil {
+		own.Close()
+	}
+	x.Eval(true)
+	x.Outcome("%s -> error", c.ctor)
 }
